@@ -8,3 +8,20 @@ package check
 //@   sweep C01
 //@   requires[cursor-in-text] len(contents) > 0 && 0 <= offset && offset <= len(contents)
 //@ end
+
+// ---- C09: workspace/symbol answers must not depend on map order or goroutine completion order ----
+//@ spec lessSym(si int, fi int, li int, ci int, ni int, sj int, fj int, lj int, cj int, nj int) bool =
+//@      si > sj || (si == sj && (fi < fj || (fi == fj && (li < lj || (li == lj && (ci < cj || (ci == cj && ni < nj)))))))
+//@ lemma lessSym_total [C09]: forall si int, fi int, li int, ci int, ni int, sj int, fj int, lj int, cj int, nj int ::
+//@      (fi != fj || li != lj || ci != cj || ni != nj) ==> (lessSym(si, fi, li, ci, ni, sj, fj, lj, cj, nj) != lessSym(sj, fj, lj, cj, nj, si, fi, li, ci, ni))
+//@ lemma lessSym_transitive [C09]: forall s1 int, f1 int, l1 int, c1 int, n1 int, s2 int, f2 int, l2 int, c2 int, n2 int, s3 int, f3 int, l3 int, c3 int, n3 int ::
+//@      lessSym(s1, f1, l1, c1, n1, s2, f2, l2, c2, n2) && lessSym(s2, f2, l2, c2, n2, s3, f3, l3, c3, n3) ==> lessSym(s1, f1, l1, c1, n1, s3, f3, l3, c3, n3)
+
+//@ func (*resultSorter).Less
+//@   props C09
+//@   sweep C01
+//@   requires 0 <= i && i < len(rs.results) && 0 <= j && j < len(rs.results) && rs.results[i].fileSymbol != nil && rs.results[j].fileSymbol != nil
+//@   ensures[less-is-total-order] result <==> (rs.results[i].score > rs.results[j].score || (rs.results[i].score == rs.results[j].score &&
+//@        lessSym(0, strord(rs.results[i].fileSymbol.FileName), rs.results[i].fileSymbol.Loc.StartLine, rs.results[i].fileSymbol.Loc.StartColumn, strord(rs.results[i].fileSymbol.Name),
+//@                0, strord(rs.results[j].fileSymbol.FileName), rs.results[j].fileSymbol.Loc.StartLine, rs.results[j].fileSymbol.Loc.StartColumn, strord(rs.results[j].fileSymbol.Name))))
+//@ end
